@@ -527,7 +527,13 @@ class Ctx:
     # -- variable creation -------------------------------------------------------------------
     def real(self, name: str, lo=None, hi=None, lo_strict: bool = False):
         if self.mode == 'conc':
-            v = self.model_in[name]
+            # variables declared after the point where a counterexample model was taken get a default inside their bounds
+            v = self.model_in.get(name)
+            if v is None:
+                v = (lo if lo is not None else 0)
+                if lo_strict and lo is not None:
+                    v = lo + 1
+                return float(v)
             return _to_py(v, False)
         if name in self.vars:
             raise ValueError(f"duplicate symbolic variable {name}")
@@ -542,7 +548,10 @@ class Ctx:
 
     def int_(self, name: str, lo=None, hi=None):
         if self.mode == 'conc':
-            return int(_to_py(self.model_in[name], True))
+            v = self.model_in.get(name)
+            if v is None:
+                return int(lo if lo is not None else (hi if hi is not None and hi < 0 else 0))
+            return int(_to_py(v, True))
         if name in self.vars:
             raise ValueError(f"duplicate symbolic variable {name}")
         self.vars[name] = ('int', lo, hi)
